@@ -115,7 +115,7 @@ func allocPorts(s *corev1.Service) []Port {
 // ---------------------------------------------------------------- engine
 
 type allocMonitors struct {
-	c01, c02, c11 bool
+	c01, c02, c11, c07 bool
 }
 
 type allocEngine struct {
@@ -323,6 +323,21 @@ func (e *allocEngine) afterAlloc(op string, s *allocSvc, had bool, pre VerifSnap
 	if err != nil {
 		e.c.Count("alloc-failed")
 		e.unchangedOnError(op, pre)
+		if e.mon.c07 && !had {
+			// allocation may fail only when the admissible set is truly empty
+			q := req
+			if op == "AllocateFromPool" {
+				q.ReqPool = reqPool
+			}
+			e.c.Eval()
+			if ok, witness := preWorld.existsAdmissible(&q); ok {
+				e.c.Violation("allocation-failed-although-admissible:"+op, fmt.Sprintf("%s for %s (ns %s labels %v families %v policy %s ports %v key %q) failed with %q although an admissible assignment exists (%s); pools: %s",
+					op, s.key, q.Namespace, q.Labels, q.Families, q.Policy, vfSortedKeys(q.Ports), q.ShareKey, err.Error(), witness, vfPoolDump(e.poolCR)), nil)
+			} else {
+				e.c.Count("failed-allocations-with-empty-admissible-set")
+				e.c.Nontrivial(fmt.Sprintf("%s|%v|%s|%s|held=%d", op, q.Families, q.Policy, q.ReqPool, len(pre.Allocated)))
+			}
+		}
 		return
 	}
 	e.recorded[s.key] = s.obj.DeepCopy()
@@ -554,4 +569,9 @@ func TestVerif_C02(t *testing.T) {
 func TestVerif_C11(t *testing.T) {
 	allocRun(t, "C11", allocMonitors{c11: true}, vfSizes{Quick: 750, Thorough: 20000},
 		allocRule+"pool layouts incl. /31 /32 on .0/.255, avoid-buggy, /64 and shorter IPv6 prefixes combined with others; non-trivial = distinct (pool layout) whose counters were checked")
+}
+
+func TestVerif_C07(t *testing.T) {
+	allocRun(t, "C07", allocMonitors{c07: true}, vfSizes{Quick: 750, Thorough: 20000},
+		allocRule+"every failed Allocate / AllocateFromPool of a service without allocation is judged by the brute-force admissibility oracle; non-trivial = distinct failed allocation whose admissible set the oracle found empty")
 }
